@@ -100,6 +100,49 @@ def expected_traffic(plan: dict[str, Any], dims: dict[str, tuple],
     return total_ar, bc
 
 
+def _assignment_views(rep: Report, plan: dict[str, Any],
+                      asg: dict[int, Any], inc: int) -> None:
+    """C06 on the assignment each rank of the job actually ended up with
+    (built by KFACPreconditioner from whatever it takes for 'my rank'):
+    per layer, the ranks that call themselves gradient workers form a group
+    of k, hold every inverse worker, are their own gradient source, and the
+    sources split the world into receiver groups of equal size."""
+    W, k = plan['world'], plan['placement']['k']
+    layers = sorted(asg[0])
+    rep.stats['assignment_views_checked'] += 1
+    for n in layers:
+        if any(n not in asg[r] for r in asg):
+            rep.bad('C06.layers', props=['C06'], layer=n, inc=inc)
+            continue
+        inv0 = asg[0][n]['inv']
+        for r in asg:
+            if asg[r][n]['inv'] != inv0:
+                rep.bad('C06.inv_worker_disagreement', props=['C06', 'C03'],
+                        rank=r, layer=n, inc=inc)
+        G = {r for r in asg if asg[r][n]['gw']}
+        if len(G) != k:
+            rep.bad('C06.grad_worker_count', props=['C06'], layer=n,
+                    got=sorted(G), k=k, inc=inc)
+            continue
+        if not set(inv0.values()) <= G:
+            rep.bad('C06.inv_workers_not_in_one_worker_group',
+                    props=['C06'], layer=n, invs=inv0, workers=sorted(G),
+                    inc=inc)
+        recv: dict[int, int] = {}
+        for r in asg:
+            src = asg[r][n]['src']
+            if src not in G:
+                rep.bad('C06.src_grad_worker', props=['C06'], rank=r,
+                        layer=n, src=src, workers=sorted(G), inc=inc)
+            elif r in G and src != r:
+                rep.bad('C06.src_of_grad_worker_is_itself', props=['C06'],
+                        rank=r, layer=n, src=src, inc=inc)
+            recv[src] = recv.get(src, 0) + 1
+        if set(recv) <= G and any(v != W // k for v in recv.values()):
+            rep.bad('C06.not_a_partition', props=['C06'], layer=n,
+                    receivers=recv, inc=inc)
+
+
 def analyse(plan: dict[str, Any], result: dict[str, Any]) -> Report:
     rep = Report()
     incs_plan = split_incarnations(plan['ops'])
@@ -218,6 +261,8 @@ def analyse(plan: dict[str, Any], result: dict[str, Any]) -> Report:
         for r in recs:
             if recs[r] and recs[r][0].get('op') == 'init':
                 asg[r] = recs[r][0].get('assignment') or {}
+        if len(asg) == plan['world'] and infos:
+            _assignment_views(rep, plan, asg, k)
         if k > 0 and plan['world'] > 1 and len(asg) == plan['world']:
             _restore_traffic(rep, plan, ref, recs, asg)
         if k > 0 and all(ref.snap[n] is not None for n in infos) and infos:
@@ -391,6 +436,12 @@ def _train_op(rep: Report, plan: dict[str, Any], ref: R.RefKFAC,
     for d in D.values():
         if bool(torch.isfinite(d).all()) and float(d.abs().max()) > 1e6:
             finite = False
+    if plan.get('factor_dtype') == 'float16' and finite:
+        for rec in by_rank.values():
+            if not R.fp16_range_ok(plan['world'], rec.get('caps', {})):
+                finite = False
+                rep.stats['vacuous_float16_range'] += 1
+                break
     if getattr(ref, 'diverged', False):
         finite = False
     if not finite:
@@ -570,6 +621,8 @@ def _factor_checks(rep: Report, plan: dict[str, Any], ref: R.RefKFAC,
             if e > tol:
                 rep.bad('C04.recurrence', rank=r, layer=n, factor=f, err=e,
                         tol=tol, key=key, updates=ref.n_updates)
+            if not bool(torch.isfinite(got).all()):
+                continue
             if not torch.equal(got, got.t()):
                 rep.bad('C04.not_symmetric', rank=r, layer=n, factor=f,
                         asym=float((got - got.t()).abs().max()))
